@@ -50,6 +50,7 @@ DEFAULTS = {
     "value_type": True,  # office:value-type="string" on non-empty cells
     "quote_entities": False,  # " and ' as &quot; / &apos;
     "indent": False,  # line breaks + indentation between the non-text elements
+    "indent_cells": False,  # with indent: also between a cell element and its paragraphs (pretty-printed XML)
     "deflate": True,  # content.xml deflated (otherwise stored)
     "bare_empty": False,  # rows without cells / tables without rows written without children
 }
@@ -328,7 +329,12 @@ def content_xml(sheets, opts=None, fault=None):
                     fault_used = True
                 if text != "" and opts["value_type"]:
                     attr += ' office:value-type="string"'
-                if inner:
+                if inner and opts["indent"] and opts.get("indent_cells"):
+                    # white space between the cell element and its paragraphs is layout, not content
+                    spaced = inner.replace("</text:p><text:p", "</text:p>" + nl + ind(6) + "<text:p")
+                    cell_xml.append(nl + ind(5) + "<table:table-cell%s>%s%s%s</table:table-cell>" % (
+                        attr, nl + ind(6), spaced, nl + ind(5)))
+                elif inner:
                     cell_xml.append(nl + ind(5) + "<table:table-cell%s>%s</table:table-cell>" % (attr, inner))
                 else:
                     cell_xml.append(nl + ind(5) + "<table:table-cell%s/>" % attr)
